@@ -319,6 +319,16 @@ def write_replay(pid, stage_name, sig, v):
     os.makedirs(d, exist_ok=True)
     h = hashlib.sha1(sig.encode()).hexdigest()[:10]
     path = os.path.join(d, "%s.json" % h)
+    if os.path.exists(path):
+        # never overwrite a committed replay (e.g. of a repaired finding): a new violation with the same signature
+        # gets its own file
+        try:
+            with open(path) as f:
+                old = json.load(f)
+            if old.get("case") != json.loads(json.dumps(v["case"], default=str)):
+                path = os.path.join(d, "%s-%s.json" % (h, case_hash(v["case"])[:8]))
+        except Exception:
+            path = os.path.join(d, "%s-%s.json" % (h, case_hash(v["case"])[:8]))
     with open(path, "w") as f:
         json.dump({"property": pid, "stage": stage_name, "signature": sig, "detail": v["detail"], "case": v["case"]},
                   f, indent=1, default=str)
